@@ -21,20 +21,6 @@ type zzGot struct {
 
 func zzC07_run() {
 	var got []zzGot
-	nc := zzNewPipe()
-	cc := zzNewPipeConnH(nc, func(w *responsewriter.ResponseWriter[*Conn], r *pool.Message) {
-		g := zzGot{token: append([]byte(nil), r.Token()...)}
-		if b, err := r.ReadBody(); err == nil {
-			g.payload = b
-		}
-		got = append(got, g)
-	}, 1152)
-	runDone := false
-	go func() {
-		_ = cc.Run()
-		runDone = true
-	}()
-	symSchedCanonical(true)
 	// payload sizes: 0 and 3 (length nibble < 13), 11 and 12 (around the 13 boundary once the payload marker is
 	// counted), 20 and 40 (one-byte extended length), 280 (two-byte extended length)
 	sizes := []int{0, 3, 11, 12, 20, 40, 280}
@@ -43,6 +29,7 @@ func zzC07_run() {
 	var want []zzGot
 	var stream []byte
 	var ends []int
+	largest := 0
 	for i := 0; i < nmsg; i++ {
 		n := sizes[symChoose("payload-size", symParam("sizes", 6))]
 		pl := make([]byte, n)
@@ -55,7 +42,31 @@ func zzC07_run() {
 		want = append(want, zzGot{token: tok, payload: pl})
 		stream = append(stream, f...)
 		ends = append(ends, len(stream))
+		if len(f) > largest {
+			largest = len(f)
+		}
 	}
+	// the maximum message size is generous, or exactly the size of the largest message of the stream (every
+	// message is within the maximum; what is buffered together with its neighbours may well be more than that)
+	maxSize := uint32(1152)
+	if symChoose("tight-maximum", 2) == 1 {
+		maxSize = uint32(largest)
+		symCover("tight-maximum")
+	}
+	nc := zzNewPipe()
+	cc := zzNewPipeConnH(nc, func(w *responsewriter.ResponseWriter[*Conn], r *pool.Message) {
+		g := zzGot{token: append([]byte(nil), r.Token()...)}
+		if b, err := r.ReadBody(); err == nil {
+			g.payload = b
+		}
+		got = append(got, g)
+	}, maxSize)
+	runDone := false
+	go func() {
+		_ = cc.Run()
+		runDone = true
+	}()
+	symSchedCanonical(true)
 	// two cuts -> three reads (a cut at 0 or at the end gives an empty read less)
 	c1 := symChoose("cut1", len(stream)+1)
 	c2 := len(stream)
